@@ -57,8 +57,50 @@ class MLock:
         return False
 
 
+class MSemaphore:
+    """scheduler-aware threading.Semaphore / BoundedSemaphore (the library as written uses none; a change that adds one
+    must not take the run out of the scheduler's hands)"""
+
+    def __init__(self, S, value=1, bounded=False):
+        self.S = S
+        self.value = value
+        self.initial = value
+        self.bounded = bounded
+
+    def acquire(self, blocking=True, timeout=None):
+        if not blocking:
+            if self.value > 0:
+                self.value -= 1
+                return True
+            return False
+        self.S.yield_('sem-acquire', None, cond=lambda: self.value > 0)
+        if self.value <= 0:
+            raise RuntimeError('controller thread found an exhausted semaphore')
+        self.value -= 1
+        return True
+
+    def release(self, n=1):
+        if self.bounded and self.value + n > self.initial:
+            raise ValueError('Semaphore released too many times')
+        self.value += n
+        self.S.yield_('released', ('S', None))
+
+    __enter__ = acquire
+
+    def __exit__(self, *a):
+        self.release()
+        return False
+
+
 def make_threading_ns(S):
+    import threading as _real
     ns = types.SimpleNamespace()
+    # everything the real module offers stays available; the blocking primitives are replaced below
+    for k in dir(_real):
+        if not k.startswith('__'):
+            setattr(ns, k, getattr(_real, k))
+    ns.Semaphore = lambda value=1: MSemaphore(S, value)
+    ns.BoundedSemaphore = lambda value=1: MSemaphore(S, value, bounded=True)
 
     def Lock():
         # the item lock is created in _ItemTaskManager.__init__(self, <item name>, ...): tag it with the first
@@ -81,6 +123,33 @@ class Empty(Exception):
     pass
 
 
+class _NoLock:
+    """exactly one managed thread runs at a time: a region without yield points is atomic by construction"""
+
+    def acquire(self, *a, **k):
+        return True
+
+    def release(self):
+        pass
+
+    def __enter__(self):
+        return self
+
+    def __exit__(self, *a):
+        return False
+
+
+class _NoCond(_NoLock):
+    def notify(self, n=1):
+        pass
+
+    def notify_all(self):
+        pass
+
+    def wait(self, timeout=None):
+        return True
+
+
 class MQueue:
     def __init__(self, S, clock):
         self.S = S
@@ -88,6 +157,12 @@ class MQueue:
         self.items = collections.deque()
         self.waiter = None          # dict(thread, start, timeout, fired) while a get is parked
         self.log = []               # every item ever put, in order
+        # the documented-by-use internals of queue.Queue, for code that reaches into them: `with q.mutex: q.queue.clear()`
+        self.queue = self.items
+        self.mutex = _NoLock()
+        self.not_empty = self.not_full = self.all_tasks_done = _NoCond()
+        self.maxsize = 0
+        self.unfinished_tasks = 0
 
     def put(self, item, block=True, timeout=None):
         self.S.yield_('put', item)
@@ -273,6 +348,12 @@ class FakeSock:
         # the class of the injected I/O error varies with the scenario (deterministically): any OSError is an I/O failure
         self.errkind = (len(self.chunks) + (fail_send or 0)) % 6
         self.wire = []          # every byte that reached the wire, in order: complete sendall payloads and the fragment a failing sendall got out
+        # a timeout put on the socket object (settimeout) applies to every blocking operation of every thread that uses
+        # it.  The peer of these runs is slow now and then: it lets every second write, and the first reads that find
+        # nothing, wait longer than any timeout.  Without a timeout (the library sets none) such an operation simply
+        # takes longer — invisible here; with one it raises socket.timeout, a write after part of the data went out.
+        self.timeout = None
+        self.recv_timeouts = 0
 
     def io_error(self, reading):
         import ssl
@@ -290,7 +371,14 @@ class FakeSock:
         return OSError('injected I/O failure')
 
     def recv(self, n):
-        self.S.yield_('recv', None, cond=lambda: bool(self.chunks) or self.end != 'block' or self.closed > 0)
+        def timed():
+            return self.timeout is not None and self.recv_timeouts < 3
+        self.S.yield_('recv', None, cond=lambda: bool(self.chunks) or self.end != 'block' or self.closed > 0 or timed())
+        if not self.closed and not self.chunks and self.end == 'block' and timed():
+            self.recv_timeouts += 1
+            _ev(self.S, 'recv-timeout')
+            import socket as _socket
+            raise _socket.timeout('timed out')
         if self.closed:
             _ev(self.S, 'recv-closed')
             raise OSError(9, 'Bad file descriptor')
@@ -316,6 +404,11 @@ class FakeSock:
             # a failing sendall may already have written part of the data (here: the first half)
             self.wire.append(bytes(data)[:len(data) // 2])
             raise self.io_error(False)
+        if self.timeout is not None and self.sends % 2 == 0:
+            _ev(self.S, 'send-timeout', bytes(data))
+            self.wire.append(bytes(data)[:len(data) // 2])
+            import socket as _socket
+            raise _socket.timeout('timed out')
         self.sent.append(bytes(data))
         self.wire.append(bytes(data))
         _ev(self.S, 'send', bytes(data))
@@ -331,6 +424,10 @@ class FakeSock:
         if self.fail_send is not None and self.sends >= self.fail_send:
             _ev(self.S, 'send-error', bytes(data))
             raise self.io_error(False)
+        if self.timeout is not None and self.sends % 2 == 0:
+            _ev(self.S, 'send-timeout', bytes(data))
+            import socket as _socket
+            raise _socket.timeout('timed out')
         part = bytes(data)[:16384]
         self.sent.append(part)
         self.wire.append(part)
@@ -343,7 +440,13 @@ class FakeSock:
         _ev(self.S, 'sock-close')
 
     def settimeout(self, t):
-        pass
+        self.timeout = t
+
+    def gettimeout(self):
+        return self.timeout
+
+    def setblocking(self, flag):
+        self.timeout = None if flag else 0.0
 
 
 class FakeOS:
@@ -469,6 +572,30 @@ def install(S, chunks=(), end='block', fail_send=None, cpu=8, cpu_raises=False):
     server.os = env.os
     server.cpu_count = fake_cpu
     subscription.threading = make_threading_ns(S)
+    # any other blocking primitive of the threading module that a library module has bound (`import threading`,
+    # `from threading import Lock, Semaphore, ...`) is replaced by its scheduler-aware stand-in as well
+    import threading as _real
+    import lightstreamer_adapter.protocol as _p
+    import lightstreamer_adapter.data_protocol as _dp
+    import lightstreamer_adapter.metadata_protocol as _mp
+    tns = subscription.threading
+    rebound = []
+    for mod in (server, subscription, _p, _dp, _mp):
+        for name, val in list(vars(mod).items()):
+            new = None
+            if val is _real and mod is not subscription:
+                new = tns
+            elif val is _real.Lock:
+                new = lambda: MLock(S, False, ('X', None))
+            elif val is _real.RLock:
+                new = lambda: MLock(S, True, ('X', None))
+            elif val is _real.Semaphore:
+                new = tns.Semaphore
+            elif val is _real.BoundedSemaphore:
+                new = tns.BoundedSemaphore
+            if new is not None:
+                rebound.append((mod, name, val))
+                setattr(mod, name, new)
     saved_classes = (subscription._ItemTaskManager, subscription.SubscriptionManager, server.SubscriptionManager)
     env.lock_violations = []
     traced_itm, traced_sm = make_traced(S, env, subscription._ItemTaskManager, subscription.SubscriptionManager)
@@ -481,4 +608,6 @@ def install(S, chunks=(), end='block', fail_send=None, cpu=8, cpu_raises=False):
         for n, v in saved_server.items():
             setattr(server, n, v)
         subscription.threading = saved_threading
+        for mod, name, val in rebound:
+            setattr(mod, name, val)
         subscription._ItemTaskManager, subscription.SubscriptionManager, server.SubscriptionManager = saved_classes
